@@ -394,12 +394,13 @@ def batch_map_event(rng):
     nm = rng.randint(1, 3)
     members = []
     kinds = rng.choice(['f', 'f', 'if', 'i', 'fb'])
+    reduce_family = rng.random() < 0.3          # the axis reductions on wider members: blocks of unequal widths, where a row-wise mean / median is not the mean / median of per-block results
     for m in range(nm):
-        nr, nc = rng.randint(1, 4), rng.randint(2, 3)
+        nr, nc = rng.randint(1, 4), (rng.randint(3, 5) if reduce_family else rng.randint(2, 3))
         cols = [C.rand_column(rng, rng.choice(kinds), nr, 0.35) for _ in range(nc)]
-        f = {'index': C.rand_labels(rng, nr, 'str'), 'columns': [['s', 'abc'[j]] for j in range(nc)], 'cols': cols, 'name': ['s', 'm%d' % m]}
+        f = {'index': C.rand_labels(rng, nr, 'str'), 'columns': [['s', 'abcde'[j]] for j in range(nc)], 'cols': cols, 'name': ['s', 'm%d' % m]}
         members.append((f, C.rand_layout(rng, f)))
-    name = rng.choice(sorted(BATCH_METHODS))
+    name = rng.choice(sorted(k for k in BATCH_METHODS if '_axis' in k)) if reduce_family else rng.choice(sorted(BATCH_METHODS))
     fn = BATCH_METHODS[name]
     fn_member, fn_batch = fn if isinstance(fn, tuple) else (fn, fn)
     # the members may be any Frame class (the Batch forwards to whatever it holds)
